@@ -144,3 +144,7 @@ def check(ctx):
 
     # ---- R02-e filtering in the scope exit ---------------------------------------------------------------------------
     scope_exit_filter(ctx, "R02-e")
+
+    # ---- R02-f "the group's remaining tasks are cancelled" includes a task that joins the group after it failed (shared with C03/R03-i)
+    from .walkers import join_restarts
+    join_restarts(ctx, "R02-f", ("TaskGroup._spawn",), 1)
